@@ -243,7 +243,7 @@ def r3(ctx):
             c = payload.ops[0].const_int()
             (false_sites if c == 0 else true_sites).append(blk)
     # the limit test
-    over_edges, under_edges = [], []
+    over_edges, under_edges, loose_edges = [], [], []
     for bi, t, e in g.switches():
         def atom(x):
             if x == ("param", 3, "limit"):
@@ -262,8 +262,10 @@ def r3(ctx):
         for (lo, hi), edge in ((ivs[0], tr), (ivs[1], fl)):
             if lo is not None and lo >= 0:
                 over_edges.append((bi, edge))
-            if hi is not None and hi <= -1:
+            elif hi is not None and hi <= -1:
                 under_edges.append((bi, edge))
+            else:
+                loose_edges.append((bi, edge, lo, hi))
     ok = bool(over_edges) and bool(false_sites)
     if ok:
         # reaching count >= limit leads to `false`
@@ -275,6 +277,8 @@ def r3(ctx):
         r = f.reachable(0, removed_edges=over_edges)
         if any(s in r for s in false_sites):
             ok = False
+    if loose_edges:
+        ok = False
     rule.check(ok, "ip_filter returns false exactly on the count >= limit edge", "ip_filter|limit-test",
                "ip_filter does not refuse exactly when the number of same-subnet values reaches the limit", loc=f.loc(f.line))
     # the /24 comparison: both sides are octets()[0..3]
